@@ -1030,3 +1030,18 @@ def describe(prop):
                             "neg/affine/container are twin configurations, not faults"],
             "required_probes": ["fault:dup", "fault:mid", "fault:nan", "twin:neg", "twin:affine", "twin:container:string", "twin:container:datetime",
                                 "probe:twin_delivered_in_chunks", "probe:nan_last_sample_of_a_chunk"]}
+
+
+def canary():
+    """Fresh detectors on a fixed signal, in two chunks (what they report must never change)."""
+    sig = [0.0, 3.0, 1.0, 4.0, 4.0, -2.0, 2.0, -1.0, 5.0, 0.0]
+    obs = []
+    for det in ("tp", "fp", "fkm"):
+        rec = "full" if det != "fkm" else "value"
+        d = _mk(det, rec)
+        _feed(d, np.array(sig[:4], dtype=np.float64))
+        _feed(d, np.array(sig[4:], dtype=np.float64))
+        obs.append(observe(d, det, rec))
+    ti, tv = find_turns(np.array(sig))
+    obs.append([[int(x) for x in ti], [float(x) for x in tv]])
+    return obs
